@@ -19,7 +19,7 @@ obligations, generated from the method's current source on every run (all inputs
 
 What is assumed (reported): objects used as key components are compared the way the memo needs (a type's name identifies it within one
 schema; AST nodes and Field objects hash by identity); the key-covers obligation is syntactic - a read value counts as determined by the key when it
-is a component of the key (v, v.attr, tuple(v)) or is computed before the lookup from such components only; a key that merely *depends* on v
+is a component of the key (v, v.name, tuple(v)) or is computed before the lookup from such components only; a key that merely *depends* on v
 (key = f(v, w)) does not determine v.
 """
 import ast
@@ -97,8 +97,11 @@ def obligations():
                 return [e]
 
             def root(e):
-                """the variable a component is (an injective view of): v, v.attr..., tuple(v) / frozenset(v)"""
-                while isinstance(e, ast.Attribute):
+                """the variable a component is (an injective view of): v, v.name (a type's name identifies it within one schema), tuple(v) / frozenset(v).
+                Any other attribute (v.__class__, v.kind ...) does not determine v."""
+                if isinstance(e, ast.Attribute):
+                    if e.attr != "name":
+                        return None
                     e = e.value
                 if isinstance(e, ast.Call) and isinstance(e.func, ast.Name) and e.func.id in ("tuple", "frozenset") and len(e.args) == 1 and not e.keywords:
                     return root(e.args[0])
@@ -177,4 +180,4 @@ def run(run, only=None):
     cov["functions_under_contract"] += sorted({"%s (memo)" % o["id"].split(":")[1] for o in obs})
     cov["parts"]["memo"] = {"methods": found, "obligations": len(obs)}
     run.assume("memo keys: a type's name identifies it within one schema; AST nodes and Field objects are hashed by identity; the key-covers obligation is "
-               "syntactic (a value reaching the computation only through an attribute of a key component counts as determined by that component)")
+               "syntactic (of the attributes of a value only its `name` is taken to determine it)")
